@@ -22,7 +22,7 @@ def run(tier):
                                 BodyProfile='"close"', PingInterval=2, PingTimeout=2, Monitor='TRUE',
                                 MaxMsg=1, Horizon=6, MaxReq=4 if th else 3, MaxQ=3,
                                 MaxEv=3, MaxPings=3),
-             invariants=INVS, min_states=1000),
+             invariants=INVS + ['C16_DataIsolatedMC'], min_states=1000),
         dict(name='1 session on websocket / mid-upgrade vanishing, monitor on',
              consts=core.consts(Alpha=A('open', 'openws', 'upgrade', 'wsio', 'sess', 'tick'),
                                 FrameProfile='"handshake"', PingInterval=2, PingTimeout=1,
@@ -32,7 +32,14 @@ def run(tier):
              consts=core.consts(Sid='{1, 2}', Alpha=A('open', 'reject', 'post', 'api', 'sess', 'send',
                                                        'poll'),
                                 BodyProfile='"close"', MaxMsg=1, MaxReq=5, MaxQ=3, MaxEv=3),
-             invariants=[i for i in INVS if i != 'C16_ReapedInTime'], min_states=500),
+             invariants=[i for i in INVS if i != 'C16_ReapedInTime'] + ['C16_DataIsolatedMC'],
+             min_states=500),
+        dict(name='2 sessions, disconnect() of all clients between other API calls, asyncio',
+             consts=core.consts(Sid='{1, 2}', Alpha=A('open', 'openws', 'apiall', 'sess', 'send'),
+                                ImplJoinLatch='TRUE', ImplWsReadTimeout='TRUE',
+                                MaxMsg=1, MaxReq=5, MaxQ=3, MaxEv=3),
+             invariants=[i for i in INVS if i != 'C16_ReapedInTime'] + ['C16_DataIsolatedMC'],
+             min_states=300),
     ]
     core.run_tlc_jobs(ck, jobs)
 
@@ -40,7 +47,8 @@ def run(tier):
     plans = []
     ns = 6
     w = {'open': 4, 'openrej': 3, 'openws': 2, 'post': 8, 'poll': 5, 'disconnect': 0, 'send': 6,
-         'save': 6, 'get': 8, 'wsframe': 8, 'wsdrop': 3, 'upgrade': 3, 'tick': 10}
+         'save': 6, 'get': 8, 'sessctx': 4, 'transport': 4, 'wsframe': 8, 'wsdrop': 3, 'upgrade': 3,
+         'tick': 10}
     for impl in ('sync', 'async'):
         plans.append(dict(
             what='long histories (%d steps, up to %d sessions), clients vanishing mid-poll / '
